@@ -148,7 +148,11 @@ impl Axecutor {
             debug_log!("Running native pipe syscall");
 
             let read_end = rand::thread_rng().gen::<u16>() as u64 + 1024;
+            #[cfg(ax_verif)]
+            let read_end = crate::verif::fd_or(read_end);
             let write_end = rand::thread_rng().gen::<u16>() as u64 + 1024;
+            #[cfg(ax_verif)]
+            let write_end = crate::verif::fd_or(write_end);
             assert_fatal!(
                 !ax.state.syscalls.pipes_read_ends.contains_key(&read_end),
                 "Duplicate read end for pipe"
